@@ -31,6 +31,22 @@ class CodecFacts:
                 tgt, val = n.target, n.value
             elif isinstance(n, ast.Assign) and len(n.targets) == 1:
                 tgt, val = n.targets[0], n.value
+            self.table_shared: Optional[str] = getattr(self, "table_shared", None)
+            if tgt is not None and attr_path(tgt) == (init.self_name, "codecs") and not isinstance(val, ast.Dict):
+                # the table lives at module level: ``dict(NAME)`` / ``NAME.copy()`` / ``{**NAME}``
+                # (a per-instance copy) or ``NAME`` itself (every instance shares one table)
+                src = val
+                copied = False
+                if isinstance(src, ast.Call) and isinstance(src.func, ast.Name) and src.func.id == "dict" and len(src.args) == 1:
+                    src, copied = src.args[0], True
+                elif isinstance(src, ast.Call) and isinstance(src.func, ast.Attribute) and src.func.attr == "copy":
+                    src, copied = src.func.value, True
+                elif isinstance(src, ast.Dict) and len(src.keys) == 1 and src.keys[0] is None:
+                    src, copied = src.values[0], True
+                if isinstance(src, ast.Name) and isinstance(self.ser.module.assigns.get(src.id), ast.Dict):
+                    val = self.ser.module.assigns[src.id]
+                    if not copied:
+                        self.table_shared = src.id
             if tgt is not None and attr_path(tgt) == (init.self_name, "codecs") and isinstance(val, ast.Dict):
                 self.table_node = n
                 for k, v in zip(val.keys, val.values):
